@@ -135,6 +135,16 @@ func unknownTrueOf(ctx *Ctx, v cty.Value) (ret cty.Value, kind string) {
 	if ctx.R.Intn(5) == 0 {
 		return cty.UnknownVal(t), "unrefined"
 	}
+	if (t.IsCollectionType() || t.IsTupleType() || t.IsObjectType()) && ctx.R.Intn(4) == 0 {
+		// a type constraint that holds the placeholder inside: list(any), tuple/object with an any-typed member
+		if g := generalizeTy(ctx, t, false); !g.Equals(t) {
+			u := cty.UnknownVal(g)
+			if !v.IsNull() && ctx.R.Intn(2) == 0 {
+				u = u.RefineNotNull()
+			}
+			return u, "type-with-placeholder-inside"
+		}
+	}
 	ret = cty.UnknownVal(t)
 	kind = "unrefined"
 	try(func() {
@@ -330,4 +340,34 @@ func weakenTuple(ctx *Ctx, args []cty.Value, skip func(i int) bool, o wkOpts) ([
 			return ws, st
 		}
 	}
+}
+
+// generalizeTy replaces some parts of t by the dynamic pseudo-type (top: may the
+// whole type be replaced).
+func generalizeTy(ctx *Ctx, t cty.Type, top bool) cty.Type {
+	if top && ctx.R.Intn(3) == 0 {
+		return cty.DynamicPseudoType
+	}
+	switch {
+	case t.IsListType():
+		return cty.List(generalizeTy(ctx, t.ElementType(), true))
+	case t.IsSetType():
+		return cty.Set(generalizeTy(ctx, t.ElementType(), true))
+	case t.IsMapType():
+		return cty.Map(generalizeTy(ctx, t.ElementType(), true))
+	case t.IsTupleType():
+		es := t.TupleElementTypes()
+		n := make([]cty.Type, len(es))
+		for i := range es {
+			n[i] = generalizeTy(ctx, es[i], true)
+		}
+		return cty.Tuple(n)
+	case t.IsObjectType():
+		atys := map[string]cty.Type{}
+		for k, v := range t.AttributeTypes() {
+			atys[k] = generalizeTy(ctx, v, true)
+		}
+		return cty.Object(atys)
+	}
+	return t
 }
